@@ -53,6 +53,15 @@ def unpack_allbits(b: "arr", k: "int"):
         unpack_allbits(b, k - 1)
 
 
+@lemma("lemmas:byte_expand")
+def byte_expand(x: "int"):
+    """binary expansion of a byte (256 ground cases)"""
+    requires(0 <= x and x < 256)
+    ensures(x == x % 2 + 2 * ((x // 2) % 2) + 4 * ((x // 4) % 2) + 8 * ((x // 8) % 2) + 16 * ((x // 16) % 2)
+            + 32 * ((x // 32) % 2) + 64 * ((x // 64) % 2) + 128 * ((x // 128) % 2))
+    split(x, 256)
+
+
 @lemma("lemmas:unpack_byte")
 def unpack_byte(b: "arr", k: "int", q: "int"):
     """binary expansion: byte q of the packing of the first k bytes' bits is byte q"""
@@ -61,6 +70,8 @@ def unpack_byte(b: "arr", k: "int", q: "int"):
     decreases(k)
     if q < k - 1:
         unpack_byte(b, k - 1, q)
+    else:
+        byte_expand(arr_get(b, q))
 
 
 @lemma("lemmas:unpack_facts")
